@@ -841,10 +841,21 @@ constexpr auto operator>=(QLike q1, Quantity<U, R> q2) -> decltype(as_quantity(q
 }
 
 #if defined(__cpp_impl_three_way_comparison) && __cpp_impl_three_way_comparison >= 201907L
+namespace detail {
+// Three-way comparison of two values of the same Quantity (or QuantityPoint) type.
+struct ThreeWayCompare {
+    template <typename T>
+    constexpr auto operator()(const T &a, const T &b) const {
+        return a.in(T::unit) <=> b.in(T::unit);
+    }
+};
+}  // namespace detail
+
+// Like the other comparisons, `<=>` first brings both inputs to their common type (so that it
+// agrees with `<`, `==`, etc. for inputs whose reps differ).
 template <typename U1, typename R1, typename U2, typename R2>
 constexpr auto operator<=>(const Quantity<U1, R1> &lhs, const Quantity<U2, R2> &rhs) {
-    using U = CommonUnitT<U1, U2>;
-    return lhs.in(U{}) <=> rhs.in(U{});
+    return detail::using_common_type(lhs, rhs, detail::ThreeWayCompare{});
 }
 #endif
 
